@@ -7,6 +7,7 @@ mod checks;
 mod e1;
 mod fields;
 mod fw;
+mod opsem;
 mod pv;
 
 use fw::{Ctx, ReplayFile, Tier};
